@@ -6,7 +6,7 @@ from common import shrink_text  # noqa: F401
 
 ID = "C04"
 LEVEL = "other"
-GEN = ["RxGen", "UnicodeGen"]
+GEN = ["RxGen", "UnicodeGen", "InlineGen", "UtilGen"]
 COQ = ["Props/C04.vo"]
 EXPLANATION = (
     "Oracle-level decision with a proved core. An independent reference printer (tools/canon.py) writes random document "
@@ -37,7 +37,7 @@ def check_tree(m, tree, fails):
         fails.append(f)
 
 
-def correspondence(ctx):
+def _old_correspondence(ctx):
     return {"evaluations": 0, "disagreements": [], "note": "no executable parser model yet"}
 
 
@@ -83,3 +83,8 @@ def replay(ctx, case):
     fails = []
     check_tree(ctx.mistune, c["tree"], fails)
     return fails[0] if fails else None
+
+
+def correspondence(ctx):
+    import corr_inline
+    return corr_inline.run(ctx, ctx.n(1500, 20000))
